@@ -7,7 +7,7 @@ import common, l3, jsonx
 from checks.c01 import _get_by_pos
 
 PID = "C12"
-PAIRS = {"w": "base", "wall": "all", "wrepl": "repl", "wsel": "sel", "weager": "eager"}
+PAIRS = {"w": "base", "wall": "all", "wrepl": "repl", "wsel": "sel", "weager": "eager", "wenc": "enc"}
 
 
 def components(name, full_ns=False):
@@ -88,6 +88,25 @@ def judge(byc, res):
                 if mapping.setdefault(a, b) != b:
                     l3.add_violation(res, "one name, two pseudonyms within a line (%s) flags=%s" % (l3.abstract_path(lf.path), flags), rw,
                                      {"name": a, "pseudonyms": [mapping[a], b]})
+        # "each name is always replaced by the same pseudonym": whatever a simple name is replaced by (pseudonym or not), it is the same text at
+        # every claimed position of the line - the verb's collection, getMore's collection, $lookup.from, $merge.into.coll ...
+        repl_of = {}
+        for lf in rw.leaves:
+            if lf.lab != "ns" or lf.node[0] != 'str' or "." in lf.node[1] or "$" in lf.node[1] or lf.node[1] == "":
+                continue
+            p = lf.path
+            if not (gated and len(p) >= 3 and p[0] == "attr" and p[1] in l3.HOLDERS and not isinstance(p[2], int)
+                    and ((len(p) == 3 and p[2] in l3.NS_COMMAND_FIELDS) or (len(p) > 3 and l3.in_zone(p)))):
+                continue
+            o = _get_by_pos(rw, lf)
+            if o is None or o[0] != 'str' or o == lf.node:
+                continue
+            if repl_of.setdefault(lf.node[1], o[1]) != o[1]:
+                l3.add_violation(res, "one name, two different replacements within a line (%s) flags=%s" % (
+                    "neither is a pseudonym" if not (cfg.pseudo_re().match(o[1]) or cfg.pseudo_re().match(repl_of[lf.node[1]])) else
+                    "one is not a pseudonym" if not (cfg.pseudo_re().match(o[1]) and cfg.pseudo_re().match(repl_of[lf.node[1]])) else "both pseudonyms", flags), rw,
+                                 {"name": lf.node[1], "replacements": [repl_of[lf.node[1]], o[1]], "second_at": l3.abstract_path(lf.path)})
+                break
         # 'db.coll' is replaced by 'P(db).P(coll)': attr.ns must be put together from the pseudonyms the same line shows for
         # its database ($db) and its collection (the verb's value / getMore's collection)
         by_text = {}
@@ -149,7 +168,9 @@ def cfgs(tier):
           # ... and together with --redactFieldNames (the flag must change nothing but namespaces there either)
           # (the planted database names all start with "Dbq" / "70": these prefixes switch field-name redaction on for most lines;
           #  the specification decides that from the abstract namespace relation, so no drift comparison for these two)
-          l3.Cfg("eager", eager=True, eager_ns="Dbq", nodrift=True), l3.Cfg("weager", eager=True, ns=True, eager_ns="Dbq", nodrift=True)]
+          l3.Cfg("eager", eager=True, eager_ns="Dbq", nodrift=True), l3.Cfg("weager", eager=True, ns=True, eager_ns="Dbq", nodrift=True),
+          # ... and together with --encrypt (values become ciphertexts; names still become pseudonyms, the same one everywhere)
+          l3.Cfg("enc", encrypt=True), l3.Cfg("wenc", encrypt=True, ns=True)]
     if tier == "thorough":
         cs += [l3.Cfg("repl", replacement="Ωx"), l3.Cfg("wrepl", replacement="Ωx", ns=True)]
     return cs
